@@ -19,7 +19,7 @@ CHECKS = {
          "Bodies are valid UTF-8 (the property's domain); the independent scanner only decides which failures may be listed as known; failures on bodies where scanner and tokenizer disagree are reported as inconclusive.",
          "5/C03"),
  "C04": ("byte-conservation invariant monitor at the filter boundary with sentinel values; fault injection by input (invalid UTF-8 at every offset); error state and held bytes observed through hooks",
-         "Filter values are private-use sentinels that cannot occur in the body, so conservation is decidable exactly: no chain => out == b; insert-only lists => out minus values == b; HTML replace => out minus values is b minus '<...>' spans (DP). Checked for arbitrary bytes x whole / byte-at-a-time / strides / every single cut / random cuts, with an invalid byte injected at every offset of every corpus document; the hooks report bytes held back and the error state after every call, which also gives the exact signature of the one known loss (held bytes dropped when the chain fails on a body that is not valid UTF-8). HTML filters carry absent / empty / different inner_value (a trace-only field that must never reach the body).",
+         "Filter values are private-use sentinels that cannot occur in the body, so conservation is decidable exactly: no chain => out == b; insert-only lists => out minus values == b; HTML replace => out minus values is b minus '<...>' spans (DP). Checked for arbitrary bytes x whole / byte-at-a-time / strides / every single cut / random cuts, with an invalid byte injected at every offset of every corpus document; the hooks report bytes held back and the error state after every call, which also gives the exact signature of the one known loss (held bytes dropped when the chain fails on a body that is not valid UTF-8). HTML filters carry absent / empty / different inner_value (a trace-only field that must never reach the body). Responses declared compressed for which no filter can be built must pass through byte for byte (compressed, truncated or not compressed at all).",
          "replace_text is outside the statement; compressed bodies are C14's subject; the replace oracle is checked for bodies <= 1500 bytes.",
          "5/C04"),
  "C08": ("history monitor with executable model (flat list scanned with the regex crate) on the real RegexTreeMap/UniqueRegexTreeMap; exhaustive insertion orders x removal subsets for small pattern sets; tree snapshots through the hook",
@@ -42,7 +42,7 @@ CHECKS.update({
          "Trusts the C13 header reference; exclusion flag in {absent,true}; sampling rates strictly inside (0,100) are random and excluded.",
          "5/C05"),
  "C06": ("round-trip runtime monitor (serde_json and the C JSON entry points) with behavioural observation before/after",
-         "For actions produced by the real pipeline over the C05 effect grid the monitor checks ser(de(ser(a))) == ser(a), equality of the C05 observations at 6 codes before and after the round trip, single getters at every code, and the same strings through redirectionio_action_json_*; for requests from the C01 generator (plus marketing parameters, upper-case / non-ASCII URLs, IPv6, sub-second timestamps) it checks that the restored request matches the same rules raw and re-normalised, also through redirectionio_request_json_*. Further: actions from rules with hostile effect values (empty / NUL / control / non-ASCII / 2 KB strings, present-null-absent optional fields), the hand-off in the middle of an exchange (applied-rule bookkeeping), the legacy wire format of requests, absent optional request fields, the action built for the restored request, and the repository's fixture worlds.",
+         "For actions produced by the real pipeline over the C05 effect grid the monitor checks ser(de(ser(a))) == ser(a), equality of the C05 observations at 6 codes before and after the round trip, single getters at every code, and the same strings through redirectionio_action_json_*; for requests from the C01 generator (plus marketing parameters, upper-case / non-ASCII URLs, IPv6, sub-second timestamps) it checks that the restored request matches the same rules raw and re-normalised, also through redirectionio_request_json_*. Further: actions from rules with hostile effect values (empty / NUL / control / non-ASCII / 2 KB strings, present-null-absent optional fields), the hand-off in the middle of an exchange (applied-rule bookkeeping), the legacy wire format of requests, absent optional request fields, field-by-field equality of the restored request, values whose edge whitespace only appears after substitution, the action built for the restored request, and the repository's fixture worlds.",
          "Trusts serde_json; the wasm bindings are not compiled on this target and are not claimed.",
          "5/C06"),
  "C11": ("constancy (metamorphic) runtime monitor: permutations of the matched list, permuted insertion orders, different update histories; reference order check",
@@ -61,7 +61,7 @@ CHECKS.update({
 
 CHECKS.update({
  "C09": ("metamorphic runtime monitor over the full 2^6 configuration cube x 3 marketing sets: self-match, separation, permutation, marketing parameters (+ Location forwarding), case swap, idempotence",
-         "No reference normaliser: the rule side and the request side of the real library must agree with each other. For every configuration and generated URL (reserved/unreserved punctuation, spaces, quotes, '+', %xx incl. invalid UTF-8, raw non-ASCII, characters the URI parser rejects; repeated keys, empty values, keys without '=', '&&', trailing '&', '?' alone) the monitor checks M1 self-match, M2 separation, M3 parameter permutation, M4 marketing parameters ignored and forwarded to the target iff configured, M5 ASCII case swap under the case flag, M6 idempotence (base URL, every variant, legacy wire format, Location after two re-normalisations), M1' the same literal rule declaring an unused marker answers identically; every relation of a case is evaluated even after one failed. Failures are known findings only for three exact signatures computed in the harness (normalisation skipped + non-canonical request; rule query containing a configured marketing key; sort-before-lowercase).",
+         "No reference normaliser: the rule side and the request side of the real library must agree with each other. For every configuration and generated URL (reserved/unreserved punctuation, spaces, quotes, '+', %xx incl. invalid UTF-8, raw non-ASCII, characters the URI parser rejects; repeated keys, empty values, keys without '=', '&&', trailing '&', '?' alone) the monitor checks M1 self-match, M2 separation, M3 parameter permutation, M4 marketing parameters ignored and forwarded to the target iff configured, M5 ASCII case swap under the case flag, M6 idempotence (base URL, every variant, legacy wire format, Location after two re-normalisations), M1' the same literal rule declaring an unused marker answers identically, M7 forwarding of skipped marketing parameters to a catch-all target whose '?' comes from the captured text; every relation of a case is evaluated even after one failed. Failures are known findings only for three exact signatures computed in the harness (normalisation skipped + non-canonical request; rule query containing a configured marketing key; sort-before-lowercase).",
          "The http crate's URI parser and a harness-side form decoder/canonical query are used only for generation and for the known-finding signatures.",
          "5/C09"),
  "C10": ("generator-knows-the-answer runtime monitor: templates instantiated with accepted / unambiguously rejected strings; expected substitutions computed by an independent longest-name-first substituter and transformer model",
